@@ -124,8 +124,18 @@ impl ScriptProc {
             }
             for a in row {
                 match a {
-                    Act::Send { dst, msg } => ctx.send(msg, pname(dst)),
-                    Act::Local { msg } => ctx.send_local(msg),
+                    Act::Send { dst, msg } => {
+                        if let Some(p) = self.me {
+                            CALLS.with(|c| c.borrow_mut().push(format!("XCALL {} SEND {}", p, dst)));
+                        }
+                        ctx.send(msg, pname(dst))
+                    }
+                    Act::Local { msg } => {
+                        if let Some(p) = self.me {
+                            CALLS.with(|c| c.borrow_mut().push(format!("XCALL {} LOCAL 0", p)));
+                        }
+                        ctx.send_local(msg)
+                    }
                     Act::Timer { name, delay, once } => {
                         if let Some(p) = self.me {
                             CALLS.with(|c| c.borrow_mut().push(format!("XCALL {} {} {} {}", p, if once { "SETONCE" } else { "SET" }, name, delay.to_bits())));
